@@ -2,9 +2,9 @@
 
 Case layout (all JSON-able)::
 
-    geo   = {cls, dim, base, m, vox, vk, ctor, weights:[{kind, val, seed, const}]}
+    geo   = {cls, dim, base, m, vox, vk, ctor, kwcall, weights:[{kind, val, seed, const, sform}]}
     data  = {payload, ncomp, series, nt, dtype}
-    calls = [{r, pseed, form}]                     (history sub-check)
+    calls = [{r, pseed, form[, data]}]             (history sub-check; data = kind of this call)
     pool, builds                                   (shared-weights sub-check, see section 7)
 
 Data may be stored with an integer type (uint8 / uint16 photographs, counts): integers of
@@ -16,6 +16,16 @@ coarsest common grid ``base[i] * g[i]`` with ``g = gcd(m, every r)`` and prolong
 ``np.repeat``, so that exactly the same piecewise-constant field exists at every resolution
 that occurs in the case.  Only the regimes the code documents as conservative are generated:
 every axis not finer than native (any ratio), or every axis an integer multiple of native.
+Per-axis *mixed* factors (one axis refined, another coarsened) are generated where the
+rescaling is exact whatever the interpolation: no array weight (the scalar voxel volume is
+rescaled by the ratio of voxel counts) or, in 2-D, spatially constant array weights.
+
+Constructor call forms: positional weights with ``dimensions`` or ``voxel_size`` (unit tests),
+and the form of every caller in the library and the examples - ``**image.shape_metadata()``
+(space_dim, num_voxels, dimensions *and* voxel_size of an Image) with the weights by keyword
+(``ExtrudedGeometry(expansion=depth, **shape_meta)``,
+``ExtrudedPorousGeometry(depth=..., porosity=..., **shape_meta)``).  Scalar weights are python
+floats, python ints (depth 1 or 2) or numpy floats.
 """
 import math
 
@@ -30,6 +40,8 @@ CLASSES = ("Geometry", "WeightedGeometry", "ExtrudedGeometry", "PorousGeometry",
            "ExtrudedPorousGeometry")
 NWEIGHTS = {"Geometry": 0, "WeightedGeometry": 1, "ExtrudedGeometry": 1, "PorousGeometry": 1,
             "ExtrudedPorousGeometry": 2}
+WEIGHT_NAMES = {"WeightedGeometry": ["weight"], "ExtrudedGeometry": ["expansion"],
+                "PorousGeometry": ["porosity"], "ExtrudedPorousGeometry": ["porosity", "depth"]}
 MAXN = {1: 16, 2: 8, 3: 8}  # native extent
 KFINE = {1: 4, 2: 4, 3: 2}  # largest refinement factor
 
@@ -61,9 +73,14 @@ def geo_specs(draw, dims=(1, 2, 3), classes=CLASSES):
             "val": draw(st.integers(1, 16)) / 8.0,
             "seed": draw(st.integers(0, 2**16)),
             "const": draw(st.integers(0, 7)) == 0,
+            # how a scalar weight is written: 0.75, 2 (int), np.float64(0.75)
+            "sform": draw(st.sampled_from(["float", "float", "int", "npfloat"])),
         })
+    ctor = draw(st.sampled_from(["dimensions", "voxel_size", "shape_meta"]))
     return {"cls": cls, "dim": dim, "base": base, "m": m, "vox": vox, "vk": vk,
-            "ctor": draw(st.sampled_from(["dimensions", "voxel_size"])), "weights": weights,
+            "ctor": ctor, "weights": weights,
+            # weights by keyword (always with shape_meta: the call form of the callers)
+            "kwcall": ctor == "shape_meta" or draw(st.integers(0, 3)) == 0,
             "nv_extra": draw(st.sampled_from([[], [], [], [3], [2, 3], [1]]))}
 
 
@@ -95,6 +112,8 @@ def resolutions(draw, geo, kinds=("native", "coarser", "other", "finer")):
             continue
         if k == "other" and max(m) == 1:
             continue
+        if k == "mixed" and not (dim >= 2 and max(m) > 1 and _mixed_ok(geo)):
+            continue
         avail.append(k)
     if not avail:
         avail = ["native"]
@@ -115,6 +134,23 @@ def resolutions(draw, geo, kinds=("native", "coarser", "other", "finer")):
             r[j] = draw(st.integers(1, m[j] - 1))
         return r
     kmax = KFINE[dim]
+    if kind == "mixed":
+        # one axis coarsened (any smaller extent), another refined by an integer factor, the
+        # remaining one anything; every second case balanced (same number of voxels as native)
+        j = draw(st.sampled_from([i for i in range(dim) if m[i] > 1]))
+        i = draw(st.sampled_from([a for a in range(dim) if a != j]))
+        r = list(m)
+        r[j] = draw(st.integers(1, m[j] - 1))
+        r[i] = m[i] * draw(st.integers(2, kmax))
+        if draw(st.booleans()):
+            bal = [d for d in _divisors(m[j]) if 2 <= d <= kmax]
+            if bal:
+                d = draw(st.sampled_from(bal))
+                r[j], r[i] = m[j] // d, m[i] * d
+        for a in range(dim):
+            if a not in (i, j):
+                r[a] = draw(st.sampled_from([m[a], m[a] * 2] + list(range(1, m[a]))))
+        return r
     if draw(st.booleans()):
         k = draw(st.integers(2, kmax))
         return [mi * k for mi in m]
@@ -128,7 +164,15 @@ def _res_kinds(geo, resized_weight=1):
     """Array weights outside 2-D document a ValueError for resized data: keep that class small."""
     if _has_array_weight(geo) and geo["dim"] != 2:
         return ("native",) * 12 + ("finer", "coarser", "other")
-    return ("native",) * 2 + ("coarser", "other", "finer") * resized_weight
+    return ("native",) * 2 + ("coarser", "other", "finer") * resized_weight + ("mixed",)
+
+
+def _mixed_ok(geo):
+    """Refining one axis and coarsening another is exact for a scalar voxel volume (ratio of
+    voxel counts) and for a spatially constant one (any interpolation reproduces a constant);
+    cv2's area resize is not conservative there for a varying volume: not generated."""
+    return all(w["kind"] == "scalar" or (w["const"] and geo["dim"] == 2)
+               for w in geo["weights"])
 
 
 # ---------------------------------------------------------------------------------------
@@ -159,9 +203,21 @@ def _weight_array(geo, w):
         if w["const"]:
             return np.full(shape, 1 + int(round(w["val"] * 8)) % 3, dtype=wdt)
         return np.random.default_rng(w["seed"]).integers(0, 4, size=shape).astype(wdt)
-    if w["kind"] == "scalar" or w["const"]:
+    if w["kind"] == "scalar":
+        return np.full(shape, float(_scalar_weight(w)))
+    if w["const"]:
         return np.full(shape, w["val"])
     return np.random.default_rng(w["seed"]).integers(1, 17, size=shape) / 8.0
+
+
+def _scalar_weight(w):
+    """A scalar weight as the user writes it: python float, python int (1 or 2), numpy float."""
+    sform = w.get("sform", "float")
+    if sform == "int":
+        return max(1, int(round(w["val"])))
+    if sform == "npfloat":
+        return np.float64(w["val"])
+    return float(w["val"])
 
 
 def _dimensions(geo):
@@ -171,7 +227,7 @@ def _dimensions(geo):
 def _weight_object(geo, w):
     """The object a user hands to the constructor for one weight: float, ndarray or Image."""
     if w["kind"] == "scalar":
-        return float(w["val"])
+        return _scalar_weight(w)
     if w["kind"] == "array":
         return _weight_array(geo, w)
     return darsia.Image(_weight_array(geo, w), space_dim=geo["dim"], dimensions=_dimensions(geo))
@@ -180,15 +236,37 @@ def _weight_object(geo, w):
 def build_geometry(geo, args=None):
     """``args``: ready-made weight objects (shared between several geometries) or None."""
     shape = _native(geo)
-    # the constructor truncates num_voxels to space_dim entries so that a full array shape
-    # (with time / component axes) may be passed
-    kw = {"space_dim": geo["dim"], "num_voxels": list(shape) + list(geo.get("nv_extra", []))}
-    if geo["ctor"] == "dimensions":
-        kw["dimensions"] = _dimensions(geo)
+    if geo["ctor"] == "shape_meta":
+        # the form of the callers: all shape metadata of an image on the native grid
+        # (space_dim, num_voxels, dimensions and the matching voxel_size)
+        kw = darsia.Image(np.zeros(shape), space_dim=geo["dim"],
+                          dimensions=_dimensions(geo)).shape_metadata()
     else:
-        kw["voxel_size"] = list(geo["vox"])
+        # the constructor truncates num_voxels to space_dim entries so that a full array
+        # shape (with time / component axes) may be passed
+        kw = {"space_dim": geo["dim"],
+              "num_voxels": list(shape) + list(geo.get("nv_extra", []))}
+        if geo["ctor"] == "dimensions":
+            kw["dimensions"] = _dimensions(geo)
+        else:
+            kw["voxel_size"] = list(geo["vox"])
     if args is None:
         args = [_weight_object(geo, w) for w in geo["weights"]]
+    args = list(args)
+    if geo.get("kwcall") and args:
+        # documented argument names, used by the callers (simplefluidflower, examples)
+        names = WEIGHT_NAMES[geo["cls"]]
+        order = list(range(len(args)))
+        if len(args) == 2 and geo["weights"][0]["seed"] % 2:
+            order.reverse()  # depth=..., porosity=... as in simplefluidflower
+        try:
+            return getattr(darsia, geo["cls"])(**{names[i]: args[i] for i in order}, **kw)
+        except TypeError as e:
+            if "argument" in str(e):
+                raise Violation("ctor-keywords", f"{geo['cls']}({', '.join(names)}=..., "
+                                f"**shape metadata) raised TypeError({e})",
+                                {"cls": geo["cls"], "dim": geo["dim"]})
+            raise
     return getattr(darsia, geo["cls"])(*args, **kw)
 
 
@@ -347,6 +425,8 @@ def _rclass(geo, r):
         return "native"
     if all(ri >= mi for ri, mi in zip(r, m)):
         return "finer"
+    if any(ri > mi for ri, mi in zip(r, m)):
+        return "mixed"
     if all(mi % ri == 0 for ri, mi in zip(r, m)):
         ks = {mi // ri for ri, mi in zip(r, m)}
         return "coarser" if len(ks) == 1 else "other-int"
@@ -356,6 +436,10 @@ def _rclass(geo, r):
 def _labels(geo, data, rs=()):
     labs = [geo["cls"], f"dim{geo['dim']}", f"weight-{_wclass(geo)}", f"data-{_dclass(data)}",
             f"vox-{geo['vk']}", f"ctor-{geo['ctor']}"]
+    if geo.get("kwcall") and geo["weights"]:
+        labs.append("weights-by-keyword")
+    for sf in sorted({w.get("sform", "float") for w in geo["weights"] if w["kind"] == "scalar"}):
+        labs.append(f"wscalar-{sf}")
     if 1 in _native(geo):
         labs.append("thin")
     for c in sorted({_rclass(geo, r) for r in rs}):
@@ -473,7 +557,7 @@ def check_linearity(case):
 def gen_resolution(tier):
     @st.composite
     def strat(draw):
-        kinds = ("coarser", "other", "finer")
+        kinds = ("coarser", "other", "finer", "mixed")
         if draw(st.integers(0, 2)) == 0:
             # the class with the real work: spatially varying volume, resized by cv2 (2-D)
             geo = draw(geo_specs(dims=(2,), classes=CLASSES[1:]))
@@ -557,7 +641,14 @@ def gen_history(tier):
             if all(c["r"] == list(geo["m"]) for c in calls[:-1]):
                 calls[0]["r"] = draw(resolutions(geo, ("coarser", "other", "finer")))
             calls[-1]["r"] = list(geo["m"])
-        return {"geo": geo, "data": draw(data_specs()), "calls": calls}
+        data = draw(data_specs())
+        if n >= 2 and draw(st.booleans()):
+            # one geometry object serves every kind of data of a program: a scalar map, then a
+            # time series, then a vector field ... (calls without "data" use the common kind)
+            for c in calls:
+                if draw(st.integers(0, 3)) > 0:
+                    c["data"] = draw(data_specs())
+        return {"geo": geo, "data": data, "calls": calls}
 
     return strat()
 
@@ -570,11 +661,15 @@ def check_history(case):
     seen_resized = False
     returned = False
     n = 0
+    common = data
+    kinds_seen = set()
     for k, c in enumerate(calls):
         r = c["r"]
+        data = c.get("data", common)
+        kinds_seen.add((_dclass(data), data["nt"], data["ncomp"]))
         fld = _field(geo, data, gg, c["pseed"])
         arr = _prolong(fld, gg, r)
-        what = f"call {k + 1}/{len(calls)} ({_rclass(geo, r)})"
+        what = f"call {k + 1}/{len(calls)} ({_rclass(geo, r)}, {_dclass(data)} data)"
         v_hist = _integrate(g, _wrap(arr.copy(), geo, data, c["form"]), geo, data, r, what)
         v_fresh = _integrate(build_geometry(geo), _wrap(arr.copy(), geo, data, c["form"]),
                              geo, data, r, what + " on a fresh object")
@@ -585,24 +680,33 @@ def check_history(case):
         if v_hist is REJECTED:
             continue
         n += 1
-        _, mag = _reference(geo, _prolong(fld, gg, m))
+        want, mag = _reference(geo, _prolong(fld, gg, m))
         kind = f"history:{_wclass(geo)}-weight"
         if not _has_array_weight(geo) and seen_resized:
             kind = "stale-cache:scalar"
-        hist = [_rclass(geo, cc["r"]) for cc in calls[: k + 1]]
+        hist = [_rclass(geo, cc["r"]) + ":" + _dclass(cc.get("data", common))
+                for cc in calls[: k + 1]]
         _compare(v_hist, np.asarray(v_fresh, dtype=float), mag, TOL64, geo, data, kind,
                  f"{what} after history {hist} differs from the same call on a fresh object",
                  arr.shape)
+        # ... and is the weighted sum itself (independent reference, not only self-consistency)
+        _compare(v_hist, want, mag, _tol(geo, data, r), geo, data,
+                 "weighted-sum" if is_native else f"resolution:{_wclass(geo)}-weight",
+                 f"{what} after history {hist}: weighted sum", arr.shape)
         if is_native and seen_resized:
             returned = True
         if not is_native:
             seen_resized = True
     if n == 0:
-        return Outcome(False, _key(case), _labels(geo, data, [c["r"] for c in calls]),
+        return Outcome(False, _key(case), _labels(geo, common, [c["r"] for c in calls]),
                        status="rejected")
-    nt = returned or _nonconst_weight(geo) or _nonscalar(data)
-    labs = _labels(geo, data, [c["r"] for c in calls]) + (
-        f"len{len(calls)}", "returns-to-native" if returned else "no-return")
+    datas = [c.get("data", common) for c in calls]
+    nt = returned or _nonconst_weight(geo) or any(_nonscalar(d) for d in datas)
+    labs = _labels(geo, common, [c["r"] for c in calls]) + (
+        f"len{len(calls)}", "returns-to-native" if returned else "no-return",
+        "data-kinds-mixed" if len(kinds_seen) > 1 else "data-kinds-same")
+    if len(kinds_seen) > 1 and _has_array_weight(geo):
+        labs += ("data-kinds-mixed:array-weight",)
     return Outcome(nt, _key(case), labs, evals=n)
 
 
@@ -619,6 +723,12 @@ def gen_normalize(tier):
             "geo": geo,
             "data": draw(data_specs(("float64", "float64", "float32"))),
             "r": draw(resolutions(geo, _res_kinds(geo))),
+            # resolution of the reference image (None: that of the image): integrals are
+            # resolution-aware, so a reference from another source (simulation, coarse scan)
+            # is normalised against just the same
+            "r_ref": draw(st.one_of(st.none(), resolutions(geo, _res_kinds(geo, 2)))),
+            # sign of the image: positive, or negative (signed storage types only)
+            "sign": draw(st.sampled_from(["pos", "pos", "pos", "neg"])),
             "pseed": [draw(st.integers(0, 2**20)), draw(st.integers(0, 2**20))],
             # amplitude of the data (power of two: exact): normalisation is scale-free, so tiny or
             # huge absolute integrals (SI units, mm-sized cells) must behave like order-one ones
@@ -635,11 +745,15 @@ def gen_normalize(tier):
 
 def check_normalize(case):
     geo, data, r = case["geo"], case["data"], case["r"]
-    gg = _gcd_grid(geo, [r])
-    # positive image (non-zero integral per time step / component), general reference
+    r_ref = case.get("r_ref") or r
+    gg = _gcd_grid(geo, [r, r_ref])
+    # one-signed image (non-zero integral per time step / component), general reference
     idtype = case.get("idtype") or data["dtype"]
     rdtype = idtype if (_is_int(idtype) and case.get("ref_int")) else data["dtype"]
     f_img = _field(geo, dict(data, dtype=idtype), gg, case["pseed"][0], positive=True)
+    negative = case.get("sign") == "neg" and np.dtype(idtype).kind != "u"
+    if negative:
+        f_img = -f_img
     f_ref = _field(geo, dict(data, dtype=rdtype), gg, case["pseed"][1])
     amp = 2.0 ** case.get("amp_exp", 0)
     if not _is_int(idtype):  # (a power of two: exact, the float type is kept)
@@ -648,14 +762,15 @@ def check_normalize(case):
         f_ref = f_ref * amp
     f32 = "float32" in (idtype, rdtype)
     a_img = _prolong(f_img, gg, r)
-    a_ref = _prolong(f_ref, gg, r)
+    a_ref = _prolong(f_ref, gg, r_ref)
     g = build_geometry(geo)
     img = _wrap(a_img.copy(), geo, data, "image")
     ref = _wrap(a_ref.copy(), geo, data, "image")
-    i_ref = _integrate(g, ref, geo, data, r, "reference")
-    if i_ref is REJECTED:
-        return Outcome(False, _key(case), _labels(geo, data, [r]), status="rejected")
-    i_img = _integrate(g, img, geo, data, r, "image")
+    # (fresh objects: the integrals the normalisation has to reproduce)
+    i_ref = _integrate(build_geometry(geo), ref, geo, data, r_ref, "reference")
+    i_img = _integrate(build_geometry(geo), img, geo, data, r, "image")
+    if i_ref is REJECTED or i_img is REJECTED:
+        return Outcome(False, _key(case), _labels(geo, data, [r, r_ref]), status="rejected")
     t = _tags(geo, data)
     t["dtype"] = idtype
     try:
@@ -680,7 +795,12 @@ def check_normalize(case):
     _, mag_ref = _reference(geo, _prolong(f_ref, gg, geo["m"]))
     _, mag_img = _reference(geo, _prolong(f_img, gg, geo["m"]))
     tol = TOL_CV if f32 else 1e-12
+    # (same object that normalised: its last call saw the resolution of the image)
     i_out = _integrate(g, out, geo, data, r, "normalized image")
+    i_ref_again = _integrate(g, ref, geo, data, r_ref, "reference after normalize")
+    _compare(i_ref_again, np.asarray(i_ref, dtype=float), mag_ref, TOL64, geo, data,
+             "normalize-history", "integral of the reference on the object that normalised vs "
+             "on a fresh object", a_ref.shape)
     # |I(out) - I(ref)|: out = img * (I_ref/I_img); rounding relative to |I_ref| * mag_img/I_img
     i_img_f = np.asarray(i_img, dtype=float)
     scale = mag_ref + np.abs(np.asarray(i_ref, dtype=float)) * mag_img / np.abs(i_img_f)
@@ -698,11 +818,13 @@ def check_normalize(case):
         raise Violation("normalize-rescale", "normalized image is not image x ratio", t)
     if not np.array_equal(img.img, a_img) or not np.array_equal(ref.img, a_ref):
         raise Violation("normalize-mutates", "normalize modified its arguments", t)
-    labs = (f"img-{idtype}", f"ref-{rdtype}", f"amp2^{case.get('amp_exp', 0)}")
+    labs = (f"img-{idtype}", f"ref-{rdtype}", f"amp2^{case.get('amp_exp', 0)}",
+            "img-negative" if negative else "img-positive",
+            "ref-res-differs" if list(r_ref) != list(r) else "ref-res-same")
     if _is_int(idtype):
         labs += ("int-image:" + ("nonscalar" if _nonscalar(data) else "scalar"),)
     return Outcome(True, [_key(case), case.get("amp_exp", 0)],
-                   _labels(geo, data, [r]) + labs, evals=2)
+                   _labels(geo, data, [r, r_ref]) + labs, evals=3)
 
 
 # ---------------------------------------------------------------------------------------
@@ -880,14 +1002,19 @@ def check_shared(case):
 
 _RULE = ("Hypothesis draws the geometry class (5), space_dim 1-3, native extents 1..8 (1..16 in "
          "1-D) as base x multiplier, voxel sizes (unit / power-of-two / generic), constructor "
-         "form (dimensions / voxel_size), weights (float / array / Image), payload kind (scalar "
-         "/ vector / series, as array or Image) and per call a resolution (native, uniformly "
-         "coarser, per-axis coarser incl. non-integer ratios, integer finer); the field lives "
-         "on the gcd grid and is prolonged by np.repeat; non-trivial (history) = returns to "
+         "form (dimensions / voxel_size / **Image.shape_metadata() with both; weights positional "
+         "or by keyword), weights (python float / int / numpy float / array / Image), payload "
+         "kind (scalar / vector / series, as array or Image) and per call a resolution (native, "
+         "uniformly coarser, per-axis coarser incl. non-integer ratios, integer finer, per-axis "
+         "mixed finer/coarser for scalar or constant voxel volumes); the field lives "
+         "on the gcd grid and is prolonged by np.repeat; history: in about 1/5 of the cases the "
+         "calls of one history carry different kinds of data (scalar, series, vector; own "
+         "number of time steps / components); non-trivial (history) = returns to "
          "native after a resized call, or non-constant array weight, or vector/series data; "
          "data dtype float64 / float32 / integer (weighted_sum, image_equals_array; normalize: "
          "image stored as uint8 / uint16 / int32 / int64 in 1/3 of the cases, reference float "
-         "or the same integer type); shared_weights: 2-3 geometries (same or different "
+         "or the same integer type; image positive or (1/4) negative; reference at another "
+         "resolution than the image in about 1/4 of the cases); shared_weights: 2-3 geometries (same or different "
          "weighted classes) built one after the other from one pool of weight objects "
          "(float64 / int64 / uint8 arrays, Images, floats), the first two share an array; "
          "distinct = the whole case")
@@ -902,12 +1029,22 @@ PROP = Prop(
         "reference: np.einsum of the prolonged field with voxel volume x weights on the native grid",
         "dyadic payloads and weights; tolerance 1e-13 x sum of magnitudes (float64, scalar "
         "volume), 1e-5 x sum of magnitudes for float32 data and for cv2-resized array volumes",
-        "only conservative regimes: no axis finer and another coarser than native; refinement "
+        "only conservative regimes: no axis finer and another coarser than native for a "
+        "spatially varying voxel volume (generated for scalar volumes and, in 2-D, constant "
+        "array weights, where the rescaling is exact for any interpolation); refinement "
         "by integer factors only; array weights resized only in 2-D (documented ValueError "
         "elsewhere is counted as rejected)",
-        "normalize: image with positive entries (non-zero integrals); float or integer storage "
-        "types (integer entries 1..32, no wrap-around); the result is compared as returned "
-        "(a float image for integer input)",
+        "history_independence: every call is compared with the same call on a fresh object "
+        "(1e-13) and with the einsum reference (tolerance of its resolution class)",
+        "normalize: image with entries of one sign (non-zero integrals); float or integer "
+        "storage types (integer entries 1..32, no wrap-around); the result is compared as "
+        "returned (a float image for integer input); the integrals to be reproduced are taken "
+        "on fresh geometry objects, the normalisation and the integral of its result on one "
+        "further object; image and reference share the physical dimensions, not necessarily "
+        "the resolution",
+        "constructor call forms are those of the unit tests (positional weight, dimensions or "
+        "voxel_size) and of the callers in the library / examples (weights by their documented "
+        "keyword, **Image.shape_metadata() = consistent dimensions and voxel_size)",
         "shared_weights: weight objects are compared bit-wise with copies taken before the "
         "first constructor call; integer weight arrays (masks / counts 0..3) are accepted by "
         "np.multiply in the constructors and give float64 volumes",
